@@ -44,7 +44,8 @@ impl Parameters {
         let doc = docs.first().ok_or_else(
             || ParameterError::ParseError("No YAML document found".into()))?;
         let params = &doc["opw_kinematics_geometric_parameters"];
-        let dof = params["dof"].as_i64().unwrap_or(6) as i8;
+        // dof is documented at the top level; nested in the geometric parameters is also accepted
+        let dof = doc["dof"].as_i64().or_else(|| params["dof"].as_i64()).unwrap_or(6) as i8;
         let mut sign_corrections = Self::read_sign_corrections(&doc["opw_kinematics_joint_sign_corrections"])?;
         if dof == 5 {
             // Block J6 at 0 by default for 5DOF robot.
